@@ -3,7 +3,7 @@ environments, self-attribute inlining and method inlining are shared; expression
 from __future__ import annotations
 import ast
 from fractions import Fraction
-from .symx import Expander, TupleV, ListV, NoneV, StrV
+from .symx import Expander, TupleV, ListV, NoneV, StrV, PoisonV
 from .anf import Unsupported
 from . import ncf
 from .ncf import M
@@ -48,6 +48,8 @@ class MExpander(Expander):
     def eval(self, node, env):
         txt = ast.unparse(node) if isinstance(node, (ast.Name, ast.Attribute, ast.Subscript, ast.Call)) else None
         if txt is not None and txt in env:
+            if isinstance(env[txt], PoisonV):
+                raise Unsupported(env[txt].why)
             return env[txt]
         if txt is not None and txt in self.atoms:
             name, rank, sym = self.atoms[txt]
@@ -236,6 +238,12 @@ class MExpander(Expander):
             return self.need_m(self.eval(f.value, env)).matmul(self.need_m(self.eval(node.args[0], env)))
         if short == "dot" and len(node.args) == 2:
             return self.need_m(self.eval(node.args[0], env)).matmul(self.need_m(self.eval(node.args[1], env)))
+        if short == "outer" and len(node.args) == 2 and not node.keywords:
+            a = self.need_m(self.eval(node.args[0], env))
+            b = self.need_m(self.eval(node.args[1], env))
+            if a.rank == 1 and b.rank == 1:
+                return M(ncf._mul(a.terms, ncf._row(b.terms)), 2)        # a b^T
+            raise Unsupported(f"`{ast.unparse(node)}` with operands of rank {a.rank}, {b.rank}")
         if short in ("eye", "identity"):
             return M.eye()
         if short in ("diag_indices", "diag_indices_from"):
